@@ -26,6 +26,8 @@ func checkC16(c *Ctx) {
 	ruleTransformerStateAtEOF(c, "C16.f")
 	c.rule("C16.g", "no stateful transformer is shared through a package-level variable", 1)
 	ruleNoSharedTransformer(c, "C16.g")
+	c.rule("C16.h", "a stateful transformer declares a Reset that restores every state field", 1)
+	ruleResetRestoresState(c, "C16.h")
 }
 
 // ruleUTF7Chunking: the chunking clauses of both Transform methods (also run
